@@ -33,6 +33,24 @@ def gen(rng, i):
             case.desc = [(regex, op, alg, cfg["weight"]["bits"], cfg["cp"])]
             case.info["tags"].add("tied_uniform_request" if regex == ".*" else "tied_one_signature_requested")
         return case
+    if i % 8 == 6:
+        # more subgraphs than signatures: the last subgraph is not exported by any signature (the body of a control-flow operator, or a
+        # plain multi-subgraph file); its statistics come from the same graph calibrated WITH its signature
+        from tensorflow.lite.tools import flatbuffer_utils
+        full, info = gm.gen_model(rng, n_subgraphs=rng.choice([2, 3]), share=0.0, alias_sig=0.0)
+        data_full = gm.random_inputs(full, rng, n=1)
+        m = pl.read(full)
+        last = len(m.subgraphs) - 1
+        dropped = [sd for sd in m.signatureDefs if sd.subgraphIndex == last]
+        m.signatureDefs = [sd for sd in m.signatureDefs if sd.subgraphIndex != last]
+        mb = bytes(flatbuffer_utils.convert_object_to_bytearray(m))
+        key = dropped[0].signatureKey.decode()
+        data = {k: v for k, v in data_full.items() if k != key}
+        info["tags"].add("subgraph_without_signature")
+        name, rec = rng.choice([r for r in pl.shipped_recipes()])
+        case = fp.Case(mb, info, recipe=rec, data=data, desc=name + " (last subgraph unsigned)")
+        case.unsigned_stats = (full, key, data_full[key])
+        return case
     mb, info = gm.gen_model(rng, n_subgraphs=rng.choice([2, 2, 3]), share=0.25 if i % 3 == 0 else 0.0)
     data = gm.random_inputs(mb, rng, n=1)
     if i % 3 == 0:
